@@ -1,6 +1,6 @@
 (* C10 — merging vector tiles concatenates the features of equally named layers. *)
 From Coq Require Import List NArith ZArith Bool.
-From VT Require Import Model.MVT Proofs.MVTProofs Gen.Constants.
+From VT Require Import Model.MVT Proofs.MVTProofs Proofs.MVTWire Gen.Constants.
 Import ListNotations.
 Local Open Scope N_scope.
 
@@ -42,4 +42,17 @@ Example C10_merge_example :
   let b := mkL [114] 4096 1 [[107]; [110]] [VStr [112]; VStr [122]] [mkF (Some 2) [1; 1; 0; 0] 2 [7]] in
   option_map lcontent (add_features a (lkeys b) (lvals b) (lfeatures b))
   = Some [(Some 1, 1, [9], Some [([107], VStr [112])]); (Some 2, 2, [7], Some [([110], VStr [122]); ([107], VStr [112])])].
+Proof. vm_compute. reflexivity. Qed.
+
+(* the wire format under merge and update: what to_blob writes is what from_blob reads - every
+   layer with name, extent, version, key and value tables as stored, every feature with id,
+   geometry type, geometry bytes and tag list (varint framing, length-delimited fields, packed
+   tags, fixed32/fixed64 values, zig-zag integers) *)
+Theorem C10_wire_roundtrip : forall ls, tile_ok ls -> decode_tile mvt_table_variant zigzag_variant (encode_tile ls) = Some ls.
+Proof. exact decode_encode_tile. Qed.
+Print Assumptions C10_wire_roundtrip.
+
+Example C10_wire_example :
+  let l := mkL [114; 111; 97; 100] 512 2 [[107]; [107]] [VStr [233]; VInt (-5); VDouble 4607182418800017408] [mkF (Some 7) [0; 1; 1; 2] 2 [9; 4; 4]; mkF None [] 0 []] in
+  decode_tile 1 1 (encode_tile [l]) = Some [l].
 Proof. vm_compute. reflexivity. Qed.
